@@ -143,6 +143,8 @@ def run_population(prop, tier, seed, eng_name, n, jobs, opts=None, chunk=None, d
     if n <= 0:
         return total
     chunk = chunk or max(1, min(500, n // (jobs * 4) or 1))
+    if eng_name == "B" and tier == "thorough":
+        chunk = min(chunk, 100)         # thorough factories are ~50x slower than quick ones: keep the deadline overshoot small
     tasks = [(prop, tier, seed, eng_name, lo, min(n, lo + chunk), opts) for lo in range(0, n, chunk)]
     if jobs <= 1:
         for t in tasks:
